@@ -117,3 +117,42 @@ Definition file_lines (f : src_file) : list string :=
   flat_map (fun cw => map (fun w => fmt_line (fst w) (fst cw) (snd w)) (snd cw)) (fwarn f).
 Definition all_lines (cfg : cli_cfg) (fs : list src_file) : list string :=
   flat_map (fun f => if file_checked cfg f then file_lines f else []) fs.
+
+(* ---- what the CLI is shown versus what is on disk (round 5) ----
+   checkPackage decides both filters on what the loader hands over: the name is
+   filepath.Base(fset.Position(f.Pos()).Filename) — Position applies a //line directive in force at the
+   package clause — and the comments are those of the COMPILED file: for a file importing "C" that is
+   cmd/cgo's output, which starts with a generated-code marker of its own. *)
+Fixpoint has_slash (s : string) : bool :=
+  match s with EmptyString => false | String c r => Ascii.eqb c slash || has_slash r end.
+(* filepath.Base for names without a trailing slash *)
+Fixpoint base_name (s : string) : string :=
+  match s with
+  | EmptyString => EmptyString
+  | String c r => if has_slash r then base_name r else if Ascii.eqb c slash then r else s
+  end.
+
+Record disk_file := {
+  df_name : string;                 (* base name of the file on disk *)
+  df_line_name : option string;     (* file name of a //line directive preceding the package clause *)
+  df_cgo : bool;                    (* the file imports "C" *)
+  df_groups : list string           (* comment-group texts of the file on disk *)
+}.
+Definition cgo_header : string := "Code generated by cmd/cgo; DO NOT EDIT." ++ String nl "".
+Definition seen_name (f : disk_file) : string :=
+  match df_line_name f with Some n => base_name n | None => df_name f end.
+Definition seen_groups (f : disk_file) : list string :=
+  if df_cgo f then cgo_header :: df_groups f else df_groups f.
+Definition disk_file_checked (cfg : cli_cfg) (f : disk_file) : bool :=
+  file_checked cfg {| fname := seen_name f; fgroups := seen_groups f; fwarn := [] |}.
+(* the property's sentence, read on the file the user has on disk *)
+Definition disk_file_wanted (cfg : cli_cfg) (f : disk_file) : bool :=
+  negb (negb (check_tests cfg) && has_suffix "_test.go" (df_name f))
+  && negb (negb (check_generated cfg) && is_generated_impl (df_groups f)).
+
+(* what the operating system makes of os.Exit(n): the low eight bits *)
+Definition os_status (z : Z) : Z := Z.modulo z 256.
+
+(* parseArgs refuses an -exitCode value that no process can deliver; before the repair every value was taken *)
+Definition parse_exit_code (z : Z) : option Z := if (0 <=? z)%Z && (z <=? 255)%Z then Some z else None.
+Definition parse_exit_code_prefix (z : Z) : option Z := Some z.
